@@ -650,6 +650,22 @@ func (st *State) loopEnv(fr *Frame, li *loopInfo) *Env {
 			}
 		}
 	}
+	// source-level locals in scope (lowest priority)
+	for name, d := range fr.dbg {
+		if _, taken := env.vars[name]; taken {
+			continue
+		}
+		if _, taken := env.cells[name]; taken {
+			continue
+		}
+		if d.isAddr {
+			if pt, ok := d.t.Underlying().(*types.Pointer); ok {
+				env.cells[name] = st.ptrAddr(d.v, pt.Elem())
+			}
+		} else {
+			env.vars[name] = envVar{d.v, d.t}
+		}
+	}
 	// phis of every open loop of this function are visible as name<ordinal> (idx3, dest2, ...)
 	for _, ol := range st.loopsFor(fr) {
 		if !st.opened[ol.head] && ol != li {
